@@ -1183,6 +1183,7 @@ def c08_decode_for(ver, role, win1=False):
 OUT_CFG = """SPECIFICATION ExportSpec
 CONSTANTS
   Ver = {ver}
+  Role = "{role}"
   Toks <- {toks}
   MaxLen = {n}
 VIEW view
@@ -1191,7 +1192,7 @@ CHECK_DEADLOCK FALSE
 """
 
 OUT_TOK = {"q0": 1, "q1": 2, "q2": 3, "s1": 4, "c2": 5, "c4": 6, "c7": 7, "sd": 8, "s0": 9, "q1long": 10, "q1big": 11,
-           "q1id1": 12, "ack": 14, "q0id": 17, "s1long": 18}
+           "q1id1": 12, "in1": 13, "ack": 14, "close": 15, "ctl": 16, "q0id": 17, "s1long": 18}
 
 
 def out_decode_for(ver, role):
@@ -1204,18 +1205,20 @@ def out_decode_for(ver, role):
     return dec
 
 
-OUT_CONFORM = dict(module="OutConform", tok2rec=lambda t: dict(t=t), tail=1, cmp=("out", "send_poll", "send_done"),
-                   project=lambda e: dict(e=e["e"], k=e["k"], s=e["s"], id=e["id"], q=e["q"]),
-                   drop=lambda e, r: e["e"] == "out" and e["k"] != "PUBLISH")
+OUT_CONFORM = dict(module="OutConform", tok2rec=lambda t: dict(t=t), tail=1, cmp=("out", "send_poll", "send_done", "ctl"),
+                   project=lambda e: dict(e=e["e"], k=e["k"], s=0 if e["e"] == "ctl" else e["s"], id=e["id"], q=e["q"]),
+                   drop=lambda e, r: e["e"] == "ctl" and not e["k"].startswith("stop_"))
 
 
 def c08_model_configs(tier):
     cs = []
     for ver in (3, 5):
         for role in ("server", "client"):
-            cs.append((f"m_v{ver}{role[0]}_all", OUT_CFG.format(ver=ver, toks="TAll", n=3 if tier == "quick" else 4), "MC_Out",
+            cs.append((f"m_v{ver}{role[0]}_all", OUT_CFG.format(ver=ver, role=role, toks="TAll", n=3 if tier == "quick" else 4), "MC_Out",
                        out_decode_for(ver, role), [None], 800 if tier == "quick" else 8000))
-            cs.append((f"m_v{ver}{role[0]}_strm", OUT_CFG.format(ver=ver, toks="TStream", n=4 if tier == "quick" else 5), "MC_Out",
+            cs.append((f"m_v{ver}{role[0]}_strm", OUT_CFG.format(ver=ver, role=role, toks="TStream", n=4 if tier == "quick" else 5), "MC_Out",
+                       out_decode_for(ver, role), [None], 800 if tier == "quick" else 8000))
+            cs.append((f"m_v{ver}{role[0]}_resp", OUT_CFG.format(ver=ver, role=role, toks="TResp", n=4 if tier == "quick" else 5), "MC_Out",
                        out_decode_for(ver, role), [None], 800 if tier == "quick" else 8000))
     return cs
 
